@@ -324,7 +324,8 @@ namespace {
       std::string error;
    };
 
-   // shape 0 "isolated": one Lexicon, kept alive until everybody is done.  shape 1 "lifecycle": two Lexicons in a row.
+   int lifecycle_rounds = 2;          // quick: the same program on two Lexicons in a row; thorough: then the next program on a third
+   // shape 0 "isolated": one Lexicon, kept alive until everybody is done.  shape 1 "lifecycle": several Lexicons in a row.
    void body(int shape, int prog, int salt, ThreadResult& r)
    {
 #ifndef C20_TSAN
@@ -340,7 +341,7 @@ namespace {
             sched::barrier();
          }
          else
-            for (int round = 0; round < 3; ++round) {
+            for (int round = 0; round < lifecycle_rounds; ++round) {
                ipr::impl::Lexicon lex;
                ipr::impl::Translation_unit unit{ lex };
                sink.op();
@@ -448,6 +449,7 @@ namespace {
       for (auto& p : x.points) if (p.running_enabled and p.chosen != 0) ++npre;
       const long long rank = npre * 1000 + (long long) cfg.progs.size();
       const std::string where = " [" + config_text(cfg) + "; " + sched_text(prefix) + "]";
+      if (rep.samples.size() < rep.sample_cap and npre >= 2) rep.sample(vf::JObj{}.str("configuration", config_text(cfg)).str("schedule", sched_text(prefix)).num("scheduling_points", (long long) x.points.size()).num("preemptions", npre).done());
       if (x.diverged) { std::fprintf(stderr, "HARNESS-ERROR replay divergence%s\n", where.c_str()); std::exit(2); }
       if (x.deadlocked) { rep.violation("C20:deadlock", rank, "no thread could run although not all had finished" + where, witness); return; }
       std::string sig;
@@ -623,6 +625,7 @@ namespace {
 int main(int argc, char** argv)
 {
    opt = vf::parse_options(argc, argv);
+   lifecycle_rounds = opt.thorough() ? 3 : 2;
 #ifdef C20_TSAN
    free_running();
    if (opt.shard == 0) {
